@@ -513,6 +513,29 @@ fn bx(v: Val) -> Box<Val> {
     Box::new(v)
 }
 
+/// an extension parser that nests another parser (C04: separate check path)
+pub struct ExtW<'a, I: InK<'a>, C: Cfg<'a, I>> {
+    inner: BP<'a, I, C>,
+    own_check: bool,
+}
+impl<'a, I: InK<'a>, C: Cfg<'a, I>> Clone for ExtW<'a, I, C> {
+    fn clone(&self) -> Self {
+        ExtW { inner: self.inner.clone(), own_check: self.own_check }
+    }
+}
+impl<'a, I: InK<'a>, C: Cfg<'a, I>> chumsky::extension::v1::ExtParser<'a, I, Val, Ex<'a, I, C>> for ExtW<'a, I, C> {
+    fn parse(&self, inp: &mut chumsky::input::InputRef<'a, '_, I, Ex<'a, I, C>>) -> Result<Val, C::Err> {
+        inp.parse(&self.inner).map(|v| Val::M(bx(v)))
+    }
+    fn check(&self, inp: &mut chumsky::input::InputRef<'a, '_, I, Ex<'a, I, C>>) -> Result<(), C::Err> {
+        if self.own_check {
+            inp.check(&self.inner)
+        } else {
+            self.parse(inp).map(|_| ())
+        }
+    }
+}
+
 pub fn probe<'a, I: InK<'a>, C: Cfg<'a, I>>(p: BP<'a, I, C>, pr: Probes) -> BP<'a, I, C> {
     if !(pr.span || pr.state || pr.ctx) {
         return p;
@@ -761,6 +784,11 @@ fn build0<'a, I: InK<'a>, C: Cfg<'a, I>>(g: &G, pr: Probes) -> BP<'a, I, C> {
         SliceWith(a) => I::slice_with::<C>(build::<I, C>(a, pr)),
         SpanWith(a) => build::<I, C>(a, pr).map_with(|_, e| { let (a, b) = e.span().pair(); Val::Sp(a, b) }).fin(),
         Lazy(a) => build::<I, C>(a, pr).lazy().fin(),
+        Ext(a, own) => chumsky::extension::v1::Ext(ExtW::<I, C> { inner: build::<I, C>(a, pr), own_check: *own }).fin(),
+        CustomNest(a) => {
+            let inner = build::<I, C>(a, pr);
+            custom(move |inp| inp.parse(&inner).map(|v| Val::M(bx(v)))).fin()
+        }
         Rep(item, bd, sink) => build_rep::<I, C>(item, bd, sink, pr),
         SepBy(item, sep, bd, l, t, sink) => build_sep::<I, C>(item, sep, bd, *l, *t, sink, pr),
         Then(a, c) => build::<I, C>(a, pr).then(build::<I, C>(c, pr)).map(|(a, c)| Val::P(bx(a), bx(c))).fin(),
